@@ -53,6 +53,13 @@ def multiline_text(rng):
         t = ' '.join(words[:k]) + nl + ' '.join(words[k:])
         if rng.random() < 0.3:
             t += nl + 'last line'
+    if rng.random() < 0.12:
+        # characters some libraries take for line ends, the MIB lexer does not: form feed (page breaks of
+        # RFC texts), vertical tab, file/group/record separators, NEL, LINE / PARAGRAPH SEPARATOR
+        words = t.split(' ')
+        k = rng.randint(0, len(words) - 1)
+        words[k] += rng.choice(['\f', '\v', '\x1c', '\x1d', '\x1e', u'\x85', u'\u2028', u'\u2029'])
+        t = ' '.join(words)
     return t
 
 
